@@ -61,11 +61,13 @@ Falsy(v)      == \/ v.k \in {"none", "unspec"}              \* `not v` in python
                  \/ (IsMap(v) /\ Keys(v) = {})
 IsInstance(v, t) == (t = "int" /\ v.k = "int") \/ (t = "str" /\ v.k = "str")
 Negative(v)   == v.k = "int" /\ v.a = "-1"
+Positive(v)   == v.k = "int" /\ v.a = "7"                    \* the ints are 0, -1, 7
 
 \* Port tree nodes, one record shape for leaves and namespaces.
 \*   dreq = `required` as declared;  req = Port._required (InputPort: after required_override)
 \*   vt = valid_type ("none"|"int"|"str");  dyn, pop = dynamic, populate_defaults (namespaces)
-\*   val = validator ("none" | "nonneg": rejects a negative int / a mapping with a negative direct value)
+\*   val = validator ("none" | "nonneg": rejects a negative int / a mapping with a negative direct value; total: it can be
+\*         given any value | "pos", "word": validators of leaf ports that RELY ON THE TYPE of what they are given, see below)
 \*   def = [k |-> "none"|"plain"|"call", v |-> value]  (leaf default; "call" = a callable returning v)
 \*   ports = <<[name, p]>> in declaration order (a python dict keeps insertion order)
 NoDefault == [k |-> "none", v |-> Unspec]
@@ -92,15 +94,32 @@ SetPort(ns, n, p) == IF n \in DeclNames(ns)
                      THEN [ns EXCEPT !.ports[IndexOf(ns, n)].p = p]
                      ELSE [ns EXCEPT !.ports = Append(@, [name |-> n, p |-> p])]
 
-\* the two validators used by the generated specs
-LeafValidatorRejects(val, v) == val = "nonneg" /\ Negative(v)
+\* the validators used by the generated specs.  "nonneg" is TOTAL (it inspects the type itself and returns a verdict for any
+\* value).  "pos" and "word" are PARTIAL: user code that uses its argument as a value of one type, as validators of typed ports
+\* do (`value > 0`, `value.isalpha()`); outside that type (their domain) calling them does not return a verdict, it RAISES:
+\*   "pos"  : lambda value, port: None if value > 0 else '...'          domain int; rejects 0 and -1; 's' > 0 -> TypeError
+\*   "word" : lambda value, port: None if value.isalpha() else '...'    domain str; rejects '';      (0).isalpha -> AttributeError
+ValidatorDomain(val)    == CASE val = "pos" -> "int" [] val = "word" -> "str" [] OTHER -> "any"
+ValidatorException(val) == IF val = "pos" THEN "TypeError" ELSE "AttributeError"
+ValidatorRaises(val, v) == ValidatorDomain(val) # "any" /\ ~IsInstance(v, ValidatorDomain(val))    \* called outside its domain
+LeafValidatorRejects(val, v) == \/ val = "nonneg" /\ Negative(v)
+                                \/ val = "pos"  /\ v.k = "int" /\ ~Positive(v)
+                                \/ val = "word" /\ v.k = "str" /\ v.a = ""
 NsValidatorRejects(val, m)   == val = "nonneg" /\ \E key \in Keys(m) : Negative(m.m[key])
+\* a port whose validator relies on a type declares that type: the declaration is what entitles the validator to rely on it
+\* (the universes of part 6 contain such ports only; what a validator that crashes on a value its port admits should mean
+\* is not part of the properties)
+WellTyped(p) == ValidatorDomain(p.val) \in {"any", p.vt}
 
 (* =============================================================================================== *)
 (* Part 2.  OPERATIONAL, inputs: ports.py validate / pre_process, processes.py on_create           *)
 (* =============================================================================================== *)
-NoErr        == [err |-> FALSE, why |-> "", dev |-> {}]
-Error(why)   == [err |-> TRUE, why |-> why, dev |-> {}]
+\* result of a validate(): no error / a PortValidationError (why) / an exception that user code (a validator) raised and that
+\* propagates through every validate() frame up to the caller (exc = its type); err is TRUE for both, so that the clauses
+\* below that return at the first error also describe the propagation
+NoErr        == [err |-> FALSE, why |-> "", dev |-> {}, exc |-> "none"]
+Error(why)   == [err |-> TRUE, why |-> why, dev |-> {}, exc |-> "none"]
+Raised(e)    == [err |-> TRUE, why |-> "raised", dev |-> {}, exc |-> e]
 WithDev(r, d) == [r EXCEPT !.dev = @ \cup d]
 
 \* Port.validate(value)
@@ -108,10 +127,12 @@ PortValidate(port, value) ==
   LET e1 == IF value = Unspec /\ port.req THEN "required"                                   \* value is UNSPECIFIED and self._required
             ELSE IF value # Unspec /\ port.vt # "none" /\ ~IsInstance(value, port.vt) THEN "type"  \* elif ... not isinstance(value, valid_type)
             ELSE ""
-      e2 == IF e1 = "" /\ port.val # "none" /\ value # Unspec                               \* if not validation_error and validator and value specified
-            THEN (IF LeafValidatorRejects(port.val, value) THEN "validator" ELSE "")
+      called == e1 = "" /\ port.val # "none" /\ value # Unspec                           \* if not validation_error and validator and value specified
+      e2 == IF called THEN (IF LeafValidatorRejects(port.val, value) THEN "validator" ELSE "")
             ELSE e1
-  IN IF e2 # "" THEN Error(e2) ELSE NoErr
+  IN IF called /\ ValidatorRaises(port.val, value)                                        \* result = self.validator(value, self): outside
+     THEN Raised(ValidatorException(port.val))                                            \* its domain the validator's exception escapes
+     ELSE IF e2 # "" THEN Error(e2) ELSE NoErr
 
 RECURSIVE Validate(_, _), NsValidate(_, _), ValidatePorts(_, _, _), ValidateDynamicPorts(_, _)
 
@@ -211,7 +232,8 @@ OnCreate(tree, raw) ==
       base == [exc |-> "none", why |-> "", parsed |-> Unspec, raw |-> raw, caller |-> raw, dev |-> pp.dev]
   IN IF pp.exc # "none" THEN [base EXCEPT !.exc = pp.exc, !.why = "pre_process"]
      ELSE LET vr == NsValidate(tree, pp.out)                                 \* self.spec().inputs.validate(self._parsed_inputs)
-          IN IF vr.err THEN [base EXCEPT !.exc = "ValueError", !.why = vr.why, !.dev = @ \cup vr.dev]   \* raise ValueError(result)
+          IN IF vr.err THEN [base EXCEPT !.exc = IF vr.exc # "none" THEN vr.exc ELSE "ValueError",      \* raise ValueError(result)
+                                         !.why = vr.why, !.dev = @ \cup vr.dev]                         \* (or what a validator raised)
              ELSE [base EXCEPT !.parsed = pp.out, !.dev = @ \cup vr.dev]
 
 (* =============================================================================================== *)
@@ -372,7 +394,8 @@ OutCall(S, path, value) ==
                       verr == IF found THEN Validate(PortAt(port_namespace, port_name), value)
                               ELSE ValidateDynamicPorts(port_namespace, Map(port_name :> value))
                       S2 == [S1 EXCEPT !.dev = @ \cup verr.dev]
-                  IN IF verr.err THEN [S |-> S2, exc |-> "ValueError"]       \* raise ValueError(msg)
+                  IN IF verr.err                                             \* raise ValueError(msg); an exception raised by a
+                     THEN [S |-> S2, exc |-> IF verr.exc # "none" THEN verr.exc ELSE "ValueError"]   \* validator escapes as it is
                      ELSE LET st == StoreOut(S2.outs, path, value)
                           IN IF st.exc # "none" THEN [S |-> [S2 EXCEPT !.dev = @ \cup st.dev], exc |-> st.exc]
                              ELSE [S |-> [S2 EXCEPT !.outs = st.outs, !.dev = @ \cup st.dev,
@@ -391,8 +414,10 @@ RunCalls(S, calls, log) ==
 OnFinishValidate(S, ret) ==
   LET verr == IF ret.successful THEN NsValidate(S.spec, S.outs)              \* self.spec().outputs.validate(self.outputs)
               ELSE NoErr
-  IN [state |-> "FINISHED", result |-> ret.value, successful |-> ret.successful /\ ~verr.err,
-      future |-> S.outs, dev |-> S.dev \cup verr.dev]
+      \* an exception other than StateEntryFailed out of on_finish (a validator that raised) fails the transition: EXCEPTED
+      \* (the other fields mean nothing then; SuccessOK excludes the case and TLC shows that it does not arise)
+  IN [state |-> IF verr.exc # "none" THEN "EXCEPTED" ELSE "FINISHED", result |-> ret.value,
+      successful |-> ret.successful /\ ~verr.err, future |-> S.outs, dev |-> S.dev \cup verr.dev]
 
 \* one process of the class whose output spec is currently `spec`
 RunProcess(spec, calls, ret) ==
@@ -472,7 +497,10 @@ C12Statements(tree, calls, ret, p) ==
 (* Part 6.  Bounded universes and the two checking specifications                                  *)
 (* =============================================================================================== *)
 Types == {"none", "int", "str"}
-Vals  == {"none", "nonneg"}
+Vals  == {"none", "nonneg"}                  \* the total validators (leaf ports and namespaces)
+TypedVals == {"pos", "word"}                 \* the validators that rely on the declared type (leaf ports)
+\* <<valid_type, validator>> of a leaf port: every combination with a total validator, a typed validator with its own type
+LeafTypeVals == (Types \X Vals) \cup {<<ValidatorDomain(v), v>> : v \in TypedVals}
 
 \* --- attribute universes ---------------------------------------------------------------------------------
 \* defaults on offer for a leaf: none, a valid plain value, a callable returning it, and (when the port can reject
@@ -487,9 +515,9 @@ DefaultsFor(vt, val) == {NoDefault, Plain(GoodDefault(vt)), Call(GoodDefault(vt)
 \* InputPort.__init__: a default that is not callable is validated by the port itself when the port is declared
 \* (`self.validate(default)` -> ValueError 'Invalid default value'): such a port is not part of any spec that can be built
 Declarable(p)   == p.def.k = "plain" => ~PortValidate(p, p.def.v).err
-AllInputLeaves  == {p \in UNION {{InputPort(r, tv[1], d, tv[2]) : r \in BOOLEAN, d \in DefaultsFor(tv[1], tv[2])} : tv \in Types \X Vals}
-                      : Declarable(p)}
-AllOutputLeaves == {OutputPort(r, t, v) : r \in BOOLEAN, t \in Types, v \in Vals}
+AllInputLeaves  == {p \in UNION {{InputPort(r, tv[1], d, tv[2]) : r \in BOOLEAN, d \in DefaultsFor(tv[1], tv[2])} : tv \in LeafTypeVals}
+                      : Declarable(p) /\ WellTyped(p)}
+AllOutputLeaves == {OutputPort(r, tv[1], tv[2]) : r \in BOOLEAN, tv \in LeafTypeVals}
 \* namespace attributes: [req, vt, dyn, pop, val]
 NsAttr(req, vt, dyn, pop, val) == [req |-> req, vt |-> vt, dyn |-> dyn, pop |-> pop, val |-> val]
 DynTypes   == {<<FALSE, "none">>, <<TRUE, "none">>, <<TRUE, "int">>, <<TRUE, "str">>}
@@ -548,6 +576,11 @@ PathsFrom(node, budget) ==
        \cup UNION {{<<node.ports[i].name>>} \cup {<<node.ports[i].name>> \o q : q \in PathsFrom(node.ports[i].p, budget - 1)}
                    : i \in 1..Len(node.ports)}
 CallsOf(tree, depth, OutVals) == {[path |-> q, value |-> v] : q \in PathsFrom(tree, depth), v \in OutVals}
+\* None emitted for a declared NAMESPACE port (out('ns', None)): PortNamespace.validate reads None as {} and out() stores the
+\* None, where OutputAccepts demands a mapping.  The calls of a run contain these only when noneNs is TRUE
+\* (ports_model.NONE_OUTPUT_FOR_NAMESPACE); None for a leaf port or an undeclared name is a value like any other.
+NoneForNamespace(tree, c) == c.value = NoneV /\ Declared(tree, c.path) /\ NodeAt(tree, c.path).node = "ns"
+CallsOfN(tree, depth, OutVals, noneNs) == {c \in CallsOf(tree, depth, OutVals) : noneNs \/ ~NoneForNamespace(tree, c)}
 CallSeqs(C, n) == UNION {[1..k -> C] : k \in 0..n}
 PlainRet        == [value |-> Int("7"), successful |-> TRUE]      \* `return 7`
 UnsuccessfulRet == [value |-> Int("7"), successful |-> FALSE]     \* `return UnsuccessfulResult(7)`
@@ -558,6 +591,13 @@ CONSTANTS
   Trees(_),         \* family -> its port trees
   InputsFor(_, _),  \* C11: family, tree -> set of raw inputs
   WorkFor(_, _)     \* C12: family, tree -> set of [calls, split, ret]
+
+\* every port of every tree of the run is well-typed (a typed validator only on a leaf port that declares its type): a universe
+\* that breaks this is a mistake of the harness, not a verdict (TLC stops with an assumption failure = machinery error)
+RECURSIVE AllWellTyped(_)
+AllWellTyped(node) == IF node.node = "leaf" THEN WellTyped(node)
+                      ELSE node.val \in Vals /\ \A i \in 1..Len(node.ports) : AllWellTyped(node.ports[i].p)
+ASSUME UniverseWellTyped == \A f \in Families : \A t \in Trees(f) : AllWellTyped(t)
 
 VARIABLES fam, tree, phase, bad
 vars == <<fam, tree, phase, bad>>
@@ -586,7 +626,7 @@ Spec11 == Init /\ [][Next11]_vars
 EncCalls(calls) == [k \in 1..Len(calls) |-> [path |-> calls[k].path, value |-> Enc(calls[k].value)]]
 EncProc(p) == [log |-> [k \in 1..Len(p.log) |-> [exc |-> p.log[k].exc, outs |-> Enc(p.log[k].outs)]],
                emitted |-> [k \in 1..Len(p.emitted) |-> <<p.emitted[k][1], Enc(p.emitted[k][2]), p.emitted[k][3]>>],
-               successful |-> p.fin.successful, result |-> Enc(p.fin.result), future |-> Enc(p.fin.future),
+               state |-> p.fin.state, successful |-> p.fin.successful, result |-> Enc(p.fin.result), future |-> Enc(p.fin.future),
                ports |-> [i \in 1..Len(p.spec.ports) |-> p.spec.ports[i].name]]
 Eval12(w) ==
   LET ps    == RunInstance(tree, w.calls, w.split, w.ret)
